@@ -335,6 +335,11 @@ PLANS = {
     "C08": plan("model_checking", [mc_cluster, crash_tv("stop", 6, 16), balloon_tv_stage], RULE_CLUSTER + "; clean stop + reopen of a child-process "
                 "node at every prefix length (exit status checked) and close/reopen of the balloon at random points on RocksDB"),
     "C09": plan("model_checking", [mc_cluster, cluster_tv("restore", 4, 16)], RULE_CLUSTER),
+    "C10": plan("model_checking", [mc_cluster, cluster_tv("window", 6, 16), cluster_tv("replicas", 2, 6)], RULE_CLUSTER + "; window scenario: the gated store "
+                "holds db.Mutate of an insertion before the real write while other goroutines issue every kind of query for old and in-flight "
+                "events (and backups); replies are verified against the snapshots acknowledged afterwards"),
+    "C16": plan("model_checking", [mc_cluster, cluster_tv("backup", 6, 16), cluster_tv("window", 2, 6)], RULE_CLUSTER + "; backup scenario: random add / backup / "
+                "delete-backup sequences, then every existing backup is restored into a fresh directory and opened as a new bootstrapped node"),
     "C12": plan("model_checking", [mc_balloon, adversary_tv_stage], RULE_ADV),
 }
 
